@@ -380,6 +380,8 @@ class C14(Prop):
                 second = 'q2 = ((%s >= 2) and (x <= 3))' % name
                 label = 'parse() of %r after the object had parsed this text' % second
             else:
+                if re.search(r'\d{5,}|[eE][+-]?\d{2,}', text):
+                    return           # (a window of 1e309 samples: the evaluation in between would never finish)
                 try:
                     m.spec.evaluate({'time': [0, 1], 'x': [1.0, 2.0], 'y': [0.5, 0.0], 'z': [3.0, 1.0], 'zz': [1.0, 2.0]})
                 except Exception:
